@@ -163,7 +163,34 @@ def lib_outputs(out, iid, rep, path):
              _outcome(lambda: molecule_filter.filter_by_chains(text, ["A", "B"], ["chem_comp", "entity"])), True)
 
 
-def bpseq_item(out, item, rep):
+def graphviz_source(bp, tmpdir):
+    """The DOT text behind `annotator --dot` (BpSeq.graphviz renders ./Graph.gv with the `dot` binary and returns
+    the name of the rendered file; the rendered PDF carries a creation date and is not one of the outputs the
+    property lists, the DOT source is)."""
+    import shutil
+
+    d = os.path.join(tmpdir, "gv")
+    shutil.rmtree(d, ignore_errors=True)
+    os.makedirs(d)
+    old = os.getcwd()
+    os.chdir(d)
+    try:
+        try:
+            rendered = os.path.basename(str(bp.graphviz))
+        except Exception as e:  # noqa: BLE001
+            rendered = "raised %s" % type(e).__name__
+        src = ""
+        for n in sorted(os.listdir(d)):
+            if n.endswith(".gv"):
+                with open(os.path.join(d, n)) as f:
+                    src += n + "\n" + f.read()
+        return rendered + "\n" + src
+    finally:
+        os.chdir(old)
+        shutil.rmtree(d, ignore_errors=True)
+
+
+def bpseq_item(out, item, rep, tmpdir=None):
     import pulp
 
     from rnapolis.common import BpSeq, Entry
@@ -186,6 +213,8 @@ def bpseq_item(out, item, rep):
         emit(out, iid, "elements@" + solver_name, rep, "\n".join(str(e) for lst in bp.elements for e in lst), has_pairs)
         emit(out, iid, "without_pseudoknots@" + solver_name, rep, str(bp.without_pseudoknots()), has_pairs)
         emit(out, iid, "without_isolated@" + solver_name, rep, str(bp.without_isolated()), has_pairs)
+        if item.get("graphviz") and solver_name == item["solvers"][0]:
+            emit(out, iid, "graphviz_source", rep, graphviz_source(bp, tmpdir), has_pairs)
 
 
 def tool_item(out, item, rep, tmpdir, nontrivial=None):
@@ -369,7 +398,7 @@ def main():
                     elif item["type"] == "adapter_gen":
                         adapter_gen_item(out, item, rep, tmpdir)
                     else:
-                        bpseq_item(out, item, rep)
+                        bpseq_item(out, item, rep, tmpdir)
                 except Exception as e:  # noqa: BLE001 - an exception is an output too, and must be the same everywhere
                     emit(out, item["id"], "exception", rep, "%s: %s" % (type(e).__name__, e), False)
                 finally:
